@@ -233,6 +233,7 @@ type pipeline struct {
 	items    []text.Item
 	breaks   []int
 	ratios   []float64
+	widths   []float64 // Breakpoint.Width (NaN for width 0)
 	ok       bool
 }
 
@@ -304,12 +305,14 @@ func recompute(lc *layoutCase) *pipeline {
 			for _, b := range brs {
 				p.breaks = append(p.breaks, b.Position)
 				p.ratios = append(p.ratios, b.Ratio)
+				p.widths = append(p.widths, b.Width)
 			}
 		} else {
 			for i, it := range p.items {
 				if it.Type == text.PenaltyType && it.Penalty <= -text.Infinity {
 					p.breaks = append(p.breaks, i)
 					p.ratios = append(p.ratios, 0)
+					p.widths = append(p.widths, math.NaN())
 				}
 			}
 		}
@@ -512,21 +515,25 @@ func layoutOne(c *hc.Ctx, lc *layoutCase, sample bool) {
 					gapStart += len(sp.text)
 				}
 			}
-			for off, r := range g {
-				if r == 0xAD {
-					// the class produced by consecutive optional breaks: the soft hyphen directly follows
-					// a space, a zero-width space or another soft hyphen
-					kind := "soft-hyphen-dropped-at-break"
-					if pr, _ := utf8.DecodeLastRuneInString(log[:gapStart+off]); pr == 0xAD || pr == 0x200B || isSpaceR(pr) {
-						kind += ":after-space-or-optional-break"
-					}
-					fail(kind, fmt.Sprintf("gap %d drops %q", gi, g))
-					charsOK = false
-					break
-				} else if !droppable(r) {
+			_ = gapStart
+			onlyShy := g != ""
+			for _, r := range g {
+				if r != 0xAD {
+					onlyShy = false
+				}
+				// a soft hyphen next to the break that is not the break itself shows nothing and is dropped like U+200B
+				if r != 0xAD && !droppable(r) {
 					fail("chars-lost", fmt.Sprintf("gap %d drops %q", gi, g))
 					charsOK = false
 					break
+				}
+			}
+			// a gap of soft hyphens only: the break was at a soft hyphen, so the line before must end in one (shown as '-', see O2)
+			if onlyShy && gi > 0 && charsOK {
+				li := nonEmpty[gi-1]
+				last := lines[li].spans[len(lines[li].spans)-1].text
+				if !strings.HasSuffix(last, "\u00ad") {
+					fail("soft-hyphen-dropped-at-break", fmt.Sprintf("gap %d drops %q and line %d does not end in the soft hyphen", gi, g, li))
 				}
 			}
 			if gi == 0 && g != "" && charsOK {
@@ -572,9 +579,6 @@ func layoutOne(c *hc.Ctx, lc *layoutCase, sample bool) {
 						}
 						if atEnd && sp.glyphTxt[k] != '-' {
 							kind := "hyphen-missing-at-break"
-							if strings.HasPrefix(gapAfter[li], "\u00ad") {
-								kind += ":before-dropped-soft-hyphen"
-							}
 							fail(kind, fmt.Sprintf("line %d ends in a soft hyphen that is not shown as '-': %q", li, sp.text))
 						}
 						if atEnd && sp.glyphTxt[k] == '-' {
@@ -630,23 +634,27 @@ func layoutOne(c *hc.Ctx, lc *layoutCase, sample bool) {
 		lo, hi := math.Inf(1), math.Inf(-1)
 		ng := 0
 		hasRTL := false
-		for k, i := range idx {
+		prevWide, overlapped := -1, false
+		for _, i := range idx {
 			sp := ln.spans[i]
 			lo, hi = math.Min(lo, sp.x), math.Max(hi, sp.x+sp.w)
 			ng += sp.nGlyphs
 			if sp.level > 0 {
 				hasRTL = true
 			}
-			if k > 0 {
-				pr := ln.spans[idx[k-1]]
-				if pr.x+pr.w > sp.x+1e-7 {
-					lv := []int{}
-					for _, s := range ln.spans {
-						lv = append(lv, s.level)
+			if sp.w > 1e-9 { // zero-width spans (format characters, U+200B) cannot overlap anything
+				if prevWide >= 0 && !overlapped {
+					pr := ln.spans[prevWide]
+					if pr.x+pr.w > sp.x+1e-7 {
+						lv := []int{}
+						for _, s := range ln.spans {
+							lv = append(lv, s.level)
+						}
+						fail("span-overlap:"+levelShape(lv), fmt.Sprintf("line %d: span %q [%g,%g] overlaps %q [%g,%g], levels %v", li, pr.text, pr.x, pr.x+pr.w, sp.text, sp.x, sp.x+sp.w, lv))
+						overlapped = true
 					}
-					fail("span-overlap:"+levelShape(lv), fmt.Sprintf("line %d: span %q [%g,%g] overlaps %q [%g,%g], levels %v", li, pr.text, pr.x, pr.x+pr.w, sp.text, sp.x, sp.x+sp.w, lv))
-					break
 				}
+				prevWide = i
 			}
 			if want := sp.face.MmPerEm * float64(sp.advUnits); math.Abs(sp.w-want) > 1e-9*(1+want) {
 				fail("span-width", fmt.Sprintf("line %d span %q Width %g but its glyph advances sum to %g", li, sp.text, sp.w, want))
@@ -674,9 +682,24 @@ func layoutOne(c *hc.Ctx, lc *layoutCase, sample bool) {
 				}
 			}
 		}
-		hyphenLost := strings.HasPrefix(gapAfter[li], "\u00ad") || strings.Contains(gapAfter[li], "\u00ad")
 		tol := 1e-7
-		if lc.halign == canvas.Justify {
+		// a space shown directly before a hyphenated break is glue inside the line: the breaker's ratio is
+		// applied to it in whole font units also for ragged alignments
+		spaceBeforeHyphen := false
+		if len(ln.spans) > 0 {
+			rs := []rune(ln.spans[len(ln.spans)-1].text)
+			if n := len(rs); n > 0 && rs[n-1] == 0xAD {
+				n--
+				for n > 0 && (rs[n-1] == 0xAD || rs[n-1] == 0x200B) {
+					n--
+				}
+				spaceBeforeHyphen = n > 0 && isSpaceR(rs[n-1])
+			}
+		}
+		if spaceBeforeHyphen {
+			c.Count("layout:space-shown-before-hyphenated-break")
+		}
+		if lc.halign == canvas.Justify || spaceBeforeHyphen {
 			// adjusted advances are whole font units: int32(adv*XAdvance+0.5) is off by < 1.5 units
 			// per glue glyph (the conversion truncates towards zero for shrinking)
 			tol = 1e-7 + 1.5*float64(ng)*maxMm
@@ -705,14 +728,6 @@ func layoutOne(c *hc.Ctx, lc *layoutCase, sample bool) {
 			}
 		case canvas.Right, canvas.Center:
 			if lc.width == 0 {
-				break
-			}
-			if t.Overflows {
-				c.Count("layout:align-skip(Overflows: Breakpoint.Width of the fallback is C17's)")
-				break
-			}
-			if hyphenLost {
-				c.Count("layout:align-skip(line of a dropped soft hyphen)")
 				break
 			}
 			if lc.halign == canvas.Right && math.Abs(hi-lc.width) > 1e-7 {
@@ -824,6 +839,46 @@ func layoutOne(c *hc.Ctx, lc *layoutCase, sample bool) {
 		c.Count("sl:skipped-long")
 	}
 
+	// the breaker's measure of a line is the width of what the line shows (hyphen included): this is what
+	// makes "fits the box" of text.Linebreak mean "inside the box" for the laid-out line. Judged where the
+	// two notions coincide: no glue between the last box and the break (gap of at most one character), no
+	// optional-break glyph with an advance inside the line.
+	if lc.width != 0 && !t.Overflows {
+		for li, ln := range lines {
+			rg := ranges[li]
+			if rg[0] < 0 || rg[1] > len(p.glyphs) || len(ln.spans) == 0 || len([]rune(gapAfter[li])) > 1 || math.IsNaN(p.widths[li]) {
+				continue
+			}
+			nat, opt := 0.0, 0.0
+			for g := rg[0]; g < rg[1]; g++ {
+				gl := p.glyphs[g]
+				adv := float64(gl.XAdvance) * gl.Size / float64(gl.SFNT.Head.UnitsPerEm)
+				if g == rg[1]-1 && rg[2] == 1 {
+					adv = hyphenWidth(gl)
+				} else if gl.Text == 0xAD || gl.Text == 0x200B {
+					opt += adv
+				}
+				nat += adv
+			}
+			last := []rune(ln.spans[len(ln.spans)-1].text)
+			if opt > 1e-9 || (rg[2] == 1 && len(last) > 1 && (isSpaceR(last[len(last)-2]) || last[len(last)-2] == 0xAD || last[len(last)-2] == 0x200B)) {
+				continue
+			}
+			ind := 0.0
+			if li == 0 {
+				ind = lc.indent
+			}
+			c.Count("layout:breaker-width-judged")
+			if math.Abs(p.widths[li]-ind-nat) > 1e-7*(1+nat) {
+				kind := "breaker-width"
+				if rg[2] == 1 {
+					kind += ":hyphenated"
+				}
+				fail(kind, fmt.Sprintf("line %d: text.Linebreak reports width %g, the line shows %g (+ indent %g)", li, p.widths[li], nat, ind))
+			}
+		}
+	}
+
 	// span faces: every shown character carries the face it was written with
 	if charsOK && utf8.ValidString(log) {
 		runeAt := map[int]int{}
@@ -868,10 +923,6 @@ func layoutOne(c *hc.Ctx, lc *layoutCase, sample bool) {
 				continue
 			}
 			forced := p.items[bp].Type == text.PenaltyType && p.items[bp].Penalty <= -text.Infinity
-			if strings.Contains(gapAfter[li], "\u00ad") {
-				c.Count("justify:skip(line of a dropped soft hyphen)")
-				continue
-			}
 			// natural measure of the line by direct summation (Knuth-Plass: skip leading discardables)
 			for a0 < bp && p.items[a0].Type != text.BoxType {
 				a0++
